@@ -35,7 +35,7 @@ RELS = {
     "cp_apr_pqnr": ["R1", "R1s", "R2", "R2d", "R3", "R4", "R5", "R1h"],
     "hosvd": ["R1p", "R1s", "R2", "R6", "R7", "R1h"],
     "tucker_als": ["R1", "R1p", "R1s", "R2", "R4", "R5", "R6", "R7", "R1h"],
-    "gcp_lbfgsb": ["R1", "R1p", "R1s", "R1g", "R2", "R3", "R4", "R7", "R1h"],
+    "gcp_lbfgsb": ["R1", "R1p", "R1s", "R1g", "R1o", "R2", "R3", "R4", "R7", "R1h"],
 }
 # R1/R1p/R2/R3 vary only what the simulator owns (seed, call history, output sink, clock): the arithmetic of
 # the run is the same, so the results must be bit-identical (0.0). A print-only branch that touches the
@@ -47,7 +47,7 @@ RELS = {
 # (probe:bitwise_equal) but not demanded: differences up to ROUNDING pass, anything larger must be explained by the
 # conditioning of the problem (two-sided guard below) or is a violation.
 ROUNDING = 1e-12
-TOL = {"R1": ROUNDING, "R1p": ROUNDING, "R1s": ROUNDING, "R1g": ROUNDING, "R1f": ROUNDING, "R2": ROUNDING, "R2d": ROUNDING, "R3": ROUNDING, "R1h": 1e-8, "R4": 1e-12, "R5": 1e-8, "R6": 1e-8, "R7": 1e-8}
+TOL = {"R1": ROUNDING, "R1p": ROUNDING, "R1s": ROUNDING, "R1g": ROUNDING, "R1f": ROUNDING, "R2": ROUNDING, "R2d": ROUNDING, "R3": ROUNDING, "R1o": ROUNDING, "R1h": 1e-8, "R4": 1e-12, "R5": 1e-8, "R6": 1e-8, "R7": 1e-8}
 FIT_TOL = 1e-6
 PQNR_KNOWN_MSG = "ERROR: L-BFGS first iterate is bad"
 
@@ -202,6 +202,9 @@ class EngineC18:
         if rel == "R1g":
             # the same explicit guess handed over in another form (Kruskal tensor / list / tuple of the factor matrices)
             return {"op": "R1g", "form": g.choice([f for f in ("ktensor", "list", "tuple") if f != init.get("guess_form", "ktensor")])}
+        if rel == "R1o":
+            # the optimizer object has a history: it solved another, larger problem before
+            return {"op": "R1o", "other_seed": g.randrange(2**31), "grow": g.choice([1, 2, 3])}
         if rel == "R1h":
             # the data object has a history: it was solved before while holding other content, then edited in place
             return {"op": "R1h", "sparse": g.random() < 0.7, "perm_seed": g.randrange(1000), "pick": g.randrange(1000)}
@@ -355,6 +358,15 @@ class EngineC18:
                     from pyttb.gcp.optimizers import LBFGSB
 
                     opt = LBFGSB(maxiter=init["maxiter"], iprint=-1)
+                    hist = variant.get("optimizer_history")
+                    if hist:
+                        rs_h = np.random.RandomState(hist["seed"] & 0x7FFFFFFF)
+                        big = rs_h.uniform(0.3, 3.0, tuple(int(v) + hist["grow"] for v in data.shape))
+                        if init["loss"] == "POISSON":
+                            big = np.ceil(big)
+                        g_h = ttb.ktensor([rs_h.uniform(0.1, 1.0, (big.shape[n], init["rank"])) for n in range(big.ndim)])
+                        ttb.gcp_opt(ttb.tensor(np.asfortranarray(big)), init["rank"], getattr(Objectives, init["loss"]), opt, init=g_h, printitn=0)
+                        np.random.seed(variant.get("np_seed", init["np_seed"]))
                     g0 = ttb.ktensor([f.copy() for f in guess]) if isinstance(guess, list) else guess
                     form = variant.get("guess_form") or init.get("guess_form", "ktensor")
                     if isinstance(guess, list) and form != "ktensor":
@@ -466,6 +478,12 @@ class EngineC18:
             if init.get("init_kind") != "explicit":
                 raise Skip("no_explicit_guess")
             var = {"guess_form": step["form"]}
+        elif op == "R1o":
+            var = {"optimizer_history": {"seed": step["other_seed"], "grow": step["grow"]}}
+            # long enough for the solver's own stopping tests (whose defaults may depend on the problem) to end the run
+            init = dict(init)
+            init["maxiter"] = 40
+            res.bump("fault:optimizer_object_used_before")
         elif op == "R1h":
             if alg == "gcp_lbfgsb" and step["sparse"]:
                 raise Skip("gcp_lbfgsb_takes_dense_data")
@@ -629,7 +647,7 @@ class EngineC18:
                 if d <= 100.0 * d_self:
                     raise Skip("ill_conditioned_problem")
             return V("same_model", f"relative difference {d:.3e} > {tol:g} between base and variant {step}")
-        if op in ("R1", "R1p", "R1s", "R1g", "R3", "R4") and base["iters"] != other["iters"]:
+        if op in ("R1", "R1p", "R1s", "R1g", "R1o", "R3", "R4") and base["iters"] != other["iters"]:
             return V("same_iteration_count", f"{base['iters']} vs {other['iters']} iterations")
         if op == "R2d" and base["iters"] != other["iters"]:
             return V("same_iteration_count", f"deadline cut after {base['iters']} vs {other['iters']} iterations under other verbosity")
